@@ -69,6 +69,12 @@ def scenario(draw) -> Dict[str, Any]:
             services[k]['late'] = True
             pre_updates = [u for u in pre_updates if u['svc'] != k]
             items.append((-draw(st.sampled_from([530, 560, 700, 760, 900, 990])), 0, {'kind': 'register', 'svc': k}))
+            if how == 'unregister' and draw(st.booleans()):
+                # ... and is brought back at once under the same name with other data (a restart on another port): what is sent
+                # from then on may carry the new registration's records, never those of the withdrawn one
+                items.append((draw(st.sampled_from([1, 30, 100, 200, 260])), 3,
+                              {'kind': 'reregister', 'svc': k, 'set': {'port': 7777, 'props': '0472653d31', 'server': 'host-re.local.',
+                                                                        'addrs': ['10.0.0.66']}}))
         if how == 'unregister-then-close':
             # the application unregisters one service without waiting for the goodbyes and closes the instance right away or
             # shortly after: the service still has to be withdrawn three times before the sockets close
@@ -145,13 +151,17 @@ def check(case: Dict[str, Any]) -> Dict[str, Any]:
     services = [rp.Svc(d) for d in run.sc['services']]       # after the updates, if any
     live = [not d.get('late') for d in run.sc['services']]
     withdrawals: List[Dict[str, Any]] = []
+    reborn: List[Tuple[int, Set[Tuple]]] = []          # (g, records of a registration made after a withdrawal)
     for ev in run.api_events:
         if ev['kind'] == 'registered':
             live[ev['svc']] = True
+            if ev.get('re'):
+                services[ev['svc']] = rp.Svc(ev['desc'])
+                reborn.append((ev['g'], {norm(i) for i in services[ev['svc']].records_with_ttl()}))
         elif ev['kind'] == 'unregister':
             k = ev['svc']
             live[k] = False
-            s = services[k]
+            s = rp.Svc(ev['desc']) if 'desc' in ev else services[k]
             w = {norm(s.ptr()), norm(s.srv()), norm(s.txt())}
             shared = any(live[j] and services[j].server.lower() == s.server.lower() for j in range(len(services)))
             if not shared:
@@ -199,7 +209,8 @@ def check(case: Dict[str, Any]) -> Dict[str, Any]:
         for s in sends:
             if s['g'] <= third['g']:
                 continue
-            bad = [(norm(i), ttl) for i, ttl, _ in s.get('an', []) + s.get('ar', []) if ttl > 0 and norm(i) in wd['W']]
+            again = set().union(*[recs for g_, recs in reborn if g_ < s['g']]) if reborn else set()
+            bad = [(norm(i), ttl) for i, ttl, _ in s.get('an', []) + s.get('ar', []) if ttl > 0 and norm(i) in wd['W'] and norm(i) not in again]
             if bad:
                 # was the answer queued before the withdrawal was requested?  (classification only)
                 raise Violation('withdrawn record transmitted with a non-zero TTL after the final goodbye',
@@ -215,7 +226,7 @@ def check(case: Dict[str, Any]) -> Dict[str, Any]:
         # user-visible effect: after the goodbye sequence has completed the peer must not (re-)add a withdrawn instance
         for wd in withdrawals:
             t_done = wd['t'] + 250 + 2 * EPS
-            names = {i[2] for i in wd['W'] if i[0] == 'PTR'}
+            names = {i[2] for i in wd['W'] if i[0] == 'PTR'} - {i[2] for _, recs in reborn for i in recs if i[0] == 'PTR'}
             for e in run.peer_listener.events:
                 if e['kind'] == 'add' and e['name'].lower() in names and e['t'] * 1000 > t_done:
                     raise Violation('peer browser re-added a withdrawn instance after the goodbye sequence had completed',
@@ -235,5 +246,7 @@ def check(case: Dict[str, Any]) -> Dict[str, Any]:
     if any(ev['kind'] == 'registered' for ev in run.api_events) and any(w_['kind'] == 'unregister' and run.sc['services'][w_['svc']].get('late')
                                                                        for w_ in withdrawals):
         classes.append('withdrawn-while-still-announcing')
+    if reborn:
+        classes.append('registered-again-with-other-data-after-the-withdrawal')
     return {'nontrivial': queued_at_withdrawal, 'classes': classes, 'max': {'queries': len(run.queries)},
             'sample': {'case': case}}
